@@ -319,3 +319,6 @@ func aliasedRecordInGraph(t *testing.T, w *World, dir, written string, out *sim.
 	}
 	return false
 }
+
+// CrashProne: see C11.
+func (C12) CrashProne() bool { return true }
